@@ -216,15 +216,20 @@ void h_rs_realloc(void)
 	VIN(size_t, req);
 	VIN(uint32_t, k);
 	VASSUME(fa < n_ar && fn < B_NODES && b_live(arena_pool[fa].longest, fn));
-	VASSUME(req >= 1 && req <= B_TOTAL);
+	VASSUME(req >= 1 && req <= 4 * B_TOTAL);
 	uint32_t old_sz = 1U << b_lev(fn);
 	VASSUME(k < old_sz && k < req);
 	unsigned char *p = arena_pool[fa].base_mem + b_off(fn);
 	unsigned char keep = p[k];
 	unsigned char *q = rs_realloc(p, req);
-	VASSERT(q != NULL, "C12.realloc a request that fits one arena succeeds");
-	VASSERT(q[k] == keep, "C12.realloc the common prefix of the content is preserved");
-	VASSERT(q == p || !b_live(arena_pool[fa].longest, fn), "C12.realloc a moved block releases the old one");
+	if(req > B_TOTAL) {
+		VASSERT(q == NULL, "C12.realloc an over-size request fails");
+		VASSERT(b_live(arena_pool[fa].longest, fn) && p[k] == keep, "C12.realloc a failed reallocation leaves the old block live and untouched (fails cleanly)");
+	} else {
+		VASSERT(q != NULL, "C12.realloc a request that fits one arena succeeds");
+		VASSERT(q[k] == keep, "C12.realloc the common prefix of the content is preserved");
+		VASSERT(q == p || !b_live(arena_pool[fa].longest, fn), "C12.realloc a moved block releases the old one");
+	}
 	VASSERT(INV_MM(S), "C11.realloc the checkpoint size accounting stays exact");
 	VCANARY("h_rs_realloc reachable");
 	VCOVER(q != p, "h_rs_realloc covers a moving reallocation");
